@@ -89,7 +89,7 @@ CLAIMED["C14"] = {
 
 CLAIMED["C12"] = {
     "technique": "Lean 4 structural induction on the inductive octree (truncation keeps well-formedness; the leaves of the truncated tree conserve volume; levels <= L) + level-cap lemma; correspondence of level-limited loads with model, Spec (truncated-tree leaves), read trace, volume and probe-lattice coverage",
-    "text": "C12_truncated_volume (for every well-formed tree and every L the leaves of the truncated tree fill the root cell exactly), truncate_WF / truncate_fits / truncate_levels, C12_flat_rule_is_truncation (filtering the stored cells of any tree, refined or not, with the loader's per-cell rule for a cap L - level <= L and (no son or level = L) - yields exactly the leaves of the tree truncated at L, in file order, each with its own coarse value) with its corollary C12_flat_rule_volume, C12_lmax_le and C01_leaf_rule are proved. Tie: outputs with levelmax 2..5 and predicates l<=k, l<k, a<l<b, l==k, l!=k, l>=k alone or with value/position predicates; the real loader's rows equal the model's and, as a multiset, the Spec's leaves of the truncated tree with coarse values; meta lmax and the read trace (only levels up to L are read) equal the model's; volumes add up and every probe point lies in exactly one cell when all levels up to L are accepted.",
+    "text": "C12_truncated_volume (for every well-formed tree and every L the leaves of the truncated tree fill the root cell exactly), truncate_WF / truncate_fits / truncate_levels, C12_flat_rule_is_truncation (filtering the stored cells of any tree, refined or not, with the loader's per-cell rule for a cap L - level <= L and (no son or level = L) - yields exactly the leaves of the tree truncated at L, in file order, each with its own coarse value) with its corollary C12_flat_rule_volume, C12_rows (with a level function p on top: exactly the leaves of the truncated tree whose level satisfies p) and C12_rows_tile (if p accepts every level up to L the rows fill the domain exactly once), C12_lmax_le and C01_leaf_rule are proved. Tie: outputs with levelmax 2..5 and predicates l<=k, l<k, a<l<b, l==k, l!=k, l>=k alone or with value/position predicates; the real loader's rows equal the model's and, as a multiset, the Spec's leaves of the truncated tree with coarse values; meta lmax and the read trace (only levels up to L are read) equal the model's; volumes add up and every probe point lies in exactly one cell when all levels up to L are accepted.",
     "note": "trusted: as C01; the inductive octree and the flat oct list of the generator are related by construction of the generator (volume and coverage are also checked numerically on each case)",
     "design_ref": "5 C12",
 }
